@@ -898,6 +898,70 @@ func (d *Driver) writeShape(b *BlobState) (int64, int) {
 	return off, n
 }
 
+// Burst runs n client operations one after the other, each delivered to completion without faults
+// (Quiesce): writes by the writer and reads by any client, with the shapes of the random scheduler.
+// It is the cheap way to get a client's caches into a non-trivial state between random-schedule rounds.
+func (d *Driver) Burst(n int) {
+	for i := 0; i < n && len(d.Blobs) > 0; i++ {
+		b := d.Blobs[d.R.Intn(len(d.Blobs))]
+		if d.R.Chance(2, 5) && d.NextWid < 240 {
+			if d.Clients[0].Busy != nil {
+				continue
+			}
+			off, n := d.writeShape(b)
+			if d.Wide {
+				d.statSpan(b, off, n)
+			}
+			d.StartWrite(0, b.Idx, off, n)
+		} else {
+			c := d.Clients[d.R.Intn(len(d.Clients))]
+			if c.Busy != nil {
+				continue
+			}
+			off, n := d.readShape(b)
+			d.StartRead(c.Idx, b.Idx, off, n)
+		}
+		d.Quiesce()
+	}
+}
+
+// statSpan counts the writes that span tracts, and among them those that start in a tract the writer has
+// cached while a tract they cover is missing from its cache although a later one is cached (a gap).
+func (d *Driver) statSpan(b *BlobState, off int64, n int) {
+	t0, t1 := int(off/TractLen), int((off+int64(n)-1)/TractLen)
+	if t1 == t0 {
+		return
+	}
+	vw.Stat("wide.span_writes", 1)
+	has := func(t int) bool {
+		tis, ok := blb.VerifCachedTracts(d.Cl.Cli[0], b.ID, t, t+1)
+		return ok && len(tis) == 1
+	}
+	pat := ""
+	for t := 0; t <= d.MaxTracts; t++ {
+		if has(t) {
+			pat += "1"
+		} else {
+			pat += "0"
+		}
+	}
+	vw.Stat("dbg.cache."+pat, 1)
+	if !has(t0) {
+		return
+	}
+	vw.Stat("dbg.span_t0_cached", 1)
+	later := false
+	for t := t1 + 1; t < d.MaxTracts+1; t++ {
+		later = later || has(t)
+	}
+	for t := t0 + 1; t <= t1; t++ {
+		if !has(t) && (later || t < t1 && has(t1)) {
+			vw.Stat("wide.span_over_cache_gap", 1)
+			return
+		}
+	}
+}
+
 func (d *Driver) readShape(b *BlobState) (int64, int) {
 	r := d.R
 	ext := b.O.Extent()
@@ -1070,6 +1134,9 @@ func (d *Driver) Actions() []Action {
 			acts = append(acts, Action{w.Write, func() {
 				b := d.Blobs[d.R.Intn(len(d.Blobs))]
 				off, n := d.writeShape(b)
+				if d.Wide {
+					d.statSpan(b, off, n)
+				}
 				d.StartWrite(0, b.Idx, off, n)
 			}})
 		}
